@@ -2,7 +2,7 @@
 import itertools
 
 from engines import rmmachine, e2gen
-from vlib.runner import Search, Enumerate, Machine
+from vlib.runner import Search, Enumerate, Machine, Fuzz
 
 ID = 'C09'
 ALPHABET = [
@@ -18,7 +18,7 @@ RULE = ('(i) complete enumeration of all operation sequences of the stated lengt
         'release(r0,{a:5}) release(r0,{zzz:0,a:1}) merge(r0,r1); every prefix is checked because the oracle runs '
         'after every operation. (ii) Hypothesis-generated sequences (<= 60 operations; amounts -2..5; five resource '
         'names incl. never-added ones; partial, excessive, negative, zero and unknown releases; merges of distinct '
-        'reservations), and a structured over-commit profile (unit reservations, explicit capacity reductions below usage, then partial/full releases and merges). (iii) a Hypothesis RuleBasedStateMachine whose release rule draws its amounts from the CURRENT holdings of a reservation (state-dependent generation) with an invariant after every step; its history is recorded as the same JSON operation list, so a failure replays without Hypothesis. Oracle: reference pool model + "an operation that raised left usage, capacity and every '
+        'reservations), and a structured over-commit profile (unit reservations, explicit capacity reductions below usage, then partial/full releases and merges). (iii) a Hypothesis RuleBasedStateMachine whose release rule draws its amounts from the CURRENT holdings of a reservation (state-dependent generation) with an invariant after every step; its history is recorded as the same JSON operation list, so a failure replays without Hypothesis. (iv) an atheris (libFuzzer) coverage-guided campaign whose target decodes bytes into the same operation alphabet and carries the same oracle inside; it can only add violations (a finding is confirmed through the replay path) and is skipped with a note if atheris is not installed. Oracle: reference pool model + "an operation that raised left usage, capacity and every '
         'holding unchanged". Non-trivial = a multi-entry or invalid reservation request was refused/raised after '
         'at least one successful reservation; distinct = SHA-1 of the canonical case JSON.')
 ASSUMPTIONS = ['observation through get_resource_usage/get_resource_capacity/ReservedResources.reserved_resources only',
@@ -43,11 +43,13 @@ def phases(tier):
         return [Enumerate('enumeration-len4', space(4), 16, describe='16^4 = 65536 sequences'),
                 Search('hypothesis-sequences', lambda: e2gen.pool_cases(40), 1000, shards=4),
                 Search('overcommit-sequences', e2gen.overcommit_cases, 1000, shards=4),
-                Machine('stateful-machine', rmmachine.pools_machine, 300, 40, shards=4)]
+                Machine('stateful-machine', rmmachine.pools_machine, 300, 40, shards=4),
+                Fuzz('atheris-coverage-guided', 'engines/fuzz_e2.py', 20000, shards=2)]
     return [Enumerate('enumeration-len5', space(5), 64, describe='16^5 = 1048576 sequences'),
             Search('hypothesis-sequences', lambda: e2gen.pool_cases(60), 4000, shards=16),
             Search('overcommit-sequences', e2gen.overcommit_cases, 4000, shards=16),
-            Machine('stateful-machine', rmmachine.pools_machine, 1500, 60, shards=16)]
+            Machine('stateful-machine', rmmachine.pools_machine, 1500, 60, shards=16),
+            Fuzz('atheris-coverage-guided', 'engines/fuzz_e2.py', 400000, shards=8)]
 
 
 def run_case(case, ctx):
